@@ -797,3 +797,37 @@ def inbound_before_publish(ctx, rule):
                    ctx.construct(f, c, extra='after publishing'),
                    'the routing conditions are evaluated before the task '
                    'published its variables', ctx.loc(f, c))
+
+
+def expression_context_order(ctx, rule):
+    """Task.get_expression_context(ctx): the context handed in by the caller
+    (for the retry expressions: the outbound context, i.e. inbound plus what
+    the attempt has just published) is looked up before the stored inbound
+    context."""
+    prog = ctx.prog
+    f = prog.func('mistral.engine.tasks.Task.get_expression_context')
+    views = [n for n in own_nodes(f.node) if isinstance(n, ast.Call) and
+             U.call_name(n) == 'ContextView']
+    if len(views) != 1 or len(f.params) < 2:
+        raise AnalysisError('Task.get_expression_context: ContextView')
+    n = views[0]
+    par = [i for i, a in enumerate(n.args) if f.params[1] in U.names_in(a)]
+    sto = [i for i, a in enumerate(n.args)
+           if (dotted(a) or '').endswith('.in_context')]
+    rule.check(bool(par) and bool(sto) and max(par) < min(sto),
+               ctx.construct(f, extra='given context before stored inbound '
+                             'context'),
+               'break-on / continue-on (and every expression evaluated with '
+               'an explicit context) read the stored inbound value of a '
+               'variable the attempt has just re-published', ctx.loc(f, n))
+    # the retry policy evaluates its expressions with the outbound context
+    rp = prog.func('mistral.engine.policies.RetryPolicy.after_task_complete')
+    calls = [c for c in own_nodes(rp.node) if isinstance(c, ast.Call) and
+             U.call_name(c) == 'get_expression_context']
+    rule.check(len(calls) == 1 and U.kwarg(calls[0], 'ctx', 0) is not None
+               and U.phas(U.kwarg(calls[0], 'ctx', 0),
+                          'data_flow.evaluate_task_outbound_context(___)'),
+               ctx.construct(rp, extra='expressions over the outbound '
+                             'context'),
+               'continue-on / break-on are not evaluated against the '
+               'outbound context of the attempt', ctx.loc(rp))
